@@ -367,4 +367,4 @@ def list_term(xs, pr=lambda x: x):
 
 def parse_nlist(s):
     """'[3; 17]%N' or '[]' -> [3, 17]"""
-    return [int(x) for x in re.findall(r"\d+", s.split("%")[0])] if "[" in s else []
+    return [int(x) for x in re.findall(r"\d+", re.sub(r"%[A-Za-z_]+", "", s))] if "[" in s else []
